@@ -1,6 +1,6 @@
 // Command sig0 binds spec/Sig0.tla to the real SIG(0) code (property C18).
 //
-//	sig0 record <events.ndjson> <keys.json> <n> <alg,alg,...> [only-id]
+//	sig0 record <events.ndjson> <keys.json> <n> <alg,alg,...> <ar:0|1> [only-id]
 //	    n seeded random messages x the algorithms: packs the message, calls the real SIG.Sign, logs
 //	    inputs and result as "sign" events for Trace_Sig0 (pass 1).  Keys are generated with the real
 //	    KEY.Generate once per algorithm and saved (PKCS#8) for the second stage.
@@ -244,6 +244,21 @@ type msgCase struct {
 	window int
 }
 
+// additional-section sizes around the octet boundaries of ARCOUNT (before the SIG RR is added)
+var arBoundary = []int{254, 255, 256, 257, 511, 512}
+
+// arMsg: a query with n small additional records, always with a window that holds
+func arMsg(r *mrand.Rand, i int) msgCase {
+	m := new(dns.Msg)
+	m.Id = uint16(r.Intn(65536))
+	m.Compress = i%2 == 1
+	m.Question = []dns.Question{{Name: "a.", Qtype: dns.TypeA, Qclass: dns.ClassINET}}
+	for j := 0; j < arBoundary[i]; j++ {
+		m.Extra = append(m.Extra, randRR(r, "a.", true))
+	}
+	return msgCase{m, "key.example.", 0}
+}
+
 // the i-th message of a run: a function of the seeded generator only (no key material, no clock)
 func randMsg(r *mrand.Rand, i int) msgCase {
 	m := new(dns.Msg)
@@ -290,7 +305,7 @@ func randMsg(r *mrand.Rand, i int) msgCase {
 		}
 	}
 	signer := []string{"key.example.", "KeY.Example.ORG.", "k.", "signer.with.a.rather.long.name.to.make.the.rdata.bigger.example.net."}[r.Intn(4)]
-	window := []int{0, 0, 0, 0, 0, 0, 1, 1, 2, 3}[r.Intn(10)]
+	window := []int{0, 4, 0, 1, 0, 5, 2, 0, 6, 0, 3, 0, 1, 0}[i%14] // every kind within any 14 consecutive messages
 	return msgCase{m, signer, window}
 }
 
@@ -308,8 +323,15 @@ func window(kind int, now int64) (inc, exp uint32) {
 		return uint32(now - 90), uint32(now + 1500)
 	case 2:
 		return uint32(now - 3600), uint32(now - 90)
-	default:
+	case 3:
 		return uint32(now + 1500), uint32(now + 3600)
+	// inverted windows (inception later than expiration): no instant is inside
+	case 4:
+		return uint32(now - 3600), uint32(now - 7200) // both in the past
+	case 5:
+		return uint32(now + 7200), uint32(now + 3600) // both in the future
+	default:
+		return uint32(now + 3600), uint32(now - 3600) // now between expiration and inception
 	}
 }
 
@@ -334,7 +356,8 @@ type evSign struct {
 	Out      hx.B   `json:"out"`
 }
 
-func record(out, keysPath string, n int, algs []string, only int) {
+// ar: the first len(arBoundary) messages are the ARCOUNT boundary ones (quick: first algorithm only)
+func record(out, keysPath string, n int, algs []string, ar bool, only int) {
 	r := hx.Rand()
 	w := hx.NewWriter(out)
 	defer w.Close()
@@ -352,6 +375,10 @@ func record(out, keysPath string, n int, algs []string, only int) {
 	seen := map[string]bool{}
 	for i := 0; i < n; i++ {
 		c := randMsg(r, i)
+		isAR := ar && i < len(arBoundary)
+		if isAR {
+			c = arMsg(r, i)
+		}
 		packed, err := c.m.Pack()
 		if err != nil {
 			hx.Die("message %d does not pack: %v", i, err)
@@ -359,6 +386,9 @@ func record(out, keysPath string, n int, algs []string, only int) {
 		for ai, a := range algs {
 			id := i*10 + ai
 			if only >= 0 && id != only {
+				continue
+			}
+			if isAR && ai > 0 && !hx.Thorough() {
 				continue
 			}
 			sum.Evaluations++
@@ -422,6 +452,7 @@ type evVerify struct {
 	KeyOwner hx.B   `json:"keyowner"`
 	Now      hx.B   `json:"now"`
 	Signed   hx.B   `json:"signed"`
+	KeyOk    bool   `json:"keyok"` // the KEY record holds the signer's or another well-formed public key
 	SigValid bool   `json:"sigvalid"`
 	Accepted bool   `json:"accepted"`
 	Err      string `json:"err"`
@@ -464,6 +495,12 @@ func swapCase(s string) string {
 		}
 	}
 	return string(b)
+}
+
+func withPublic(k *dns.KEY, pub []byte) *dns.KEY {
+	c := *k
+	c.PublicKey = base64.StdEncoding.EncodeToString(pub)
+	return &c
 }
 
 func withOwner(k *dns.KEY, owner string) *dns.KEY {
@@ -523,14 +560,32 @@ func finish(eventsPath, emitPath, keysPath, verifyPath string) {
 			type variant struct {
 				name string
 				k    *dns.KEY
-				pub  crypto.PublicKey
+				pub  crypto.PublicKey // nil: the KEY record does not hold a public key of its algorithm
 			}
 			vs := []variant{{"same", keyrr, k0.priv.Public()},
-				{"owner-case", withOwner(k0.rr, swapCase(signer)), k0.priv.Public()},
-				{"owner-other", withOwner(k0.rr, "other."+signer), k0.priv.Public()},
-				{"owner-parent", withOwner(k0.rr, "example."), k0.priv.Public()},
-				{"key-other", withOwner(k1.rr, signer), k1.priv.Public()},
-				{"key-other-alg", withOwner(other.rr, signer), other.priv.Public()}}
+				{"owner-case", withOwner(k0.rr, swapCase(signer)), k0.priv.Public()}}
+			if names[bi] == "real" || len(buf) <= 2000 { // long built messages: the two accepting variants only
+				pk, err := base64.StdEncoding.DecodeString(k0.rr.PublicKey)
+				if err != nil {
+					hx.Die("KEY public key: %v", err)
+				}
+				otherLen := map[int]int{64: 96, 96: 64, 32: 64}[len(pk)]
+				if otherLen == 0 {
+					otherLen = 32
+				}
+				ol := make([]byte, otherLen)
+				copy(ol, pk)
+				vs = append(vs,
+					variant{"owner-other", withOwner(k0.rr, "other."+signer), k0.priv.Public()},
+					variant{"owner-parent", withOwner(k0.rr, "example."), k0.priv.Public()},
+					variant{"key-other", withOwner(k1.rr, signer), k1.priv.Public()},
+					variant{"key-other-alg", withOwner(other.rr, signer), other.priv.Public()},
+					// the signer's key damaged: one octet short, one octet long, empty, the length of another algorithm
+					variant{"key-short", withPublic(keyrr, pk[:len(pk)-1]), nil},
+					variant{"key-long", withPublic(keyrr, append(append([]byte{}, pk...), 1)), nil},
+					variant{"key-empty", withPublic(keyrr, nil), nil},
+					variant{"key-otherlen", withPublic(keyrr, ol), nil})
+			}
 			for _, v := range vs {
 				sum.Evaluations++
 				now := time.Now().Unix()
@@ -540,7 +595,7 @@ func finish(eventsPath, emitPath, keysPath, verifyPath string) {
 					continue
 				}
 				ev := evVerify{Ev: "verify", Id: e.Id, Variant: names[bi] + "/" + v.name, Buf: hx.FromBytes(buf), KeyOwner: hx.FromString(v.k.Hdr.Name), Now: be32(uint32(now)),
-					Signed: signed, SigValid: stdVerify(v.pub, em.Hash, signed.Bytes(), buf[em.SigOff:]), Accepted: err == nil}
+					Signed: signed, KeyOk: v.pub != nil, SigValid: v.pub != nil && stdVerify(v.pub, em.Hash, signed.Bytes(), buf[em.SigOff:]), Accepted: err == nil}
 				if err != nil {
 					ev.Err = err.Error()
 				}
@@ -640,10 +695,10 @@ func main() {
 	case "record":
 		n, _ := strconv.Atoi(os.Args[4])
 		only := -1
-		if len(os.Args) > 6 {
-			only, _ = strconv.Atoi(os.Args[6])
+		if len(os.Args) > 7 {
+			only, _ = strconv.Atoi(os.Args[7])
 		}
-		record(os.Args[2], os.Args[3], n, strings.Split(os.Args[5], ","), only)
+		record(os.Args[2], os.Args[3], n, strings.Split(os.Args[5], ","), os.Args[6] == "1", only)
 	case "finish":
 		finish(os.Args[2], os.Args[3], os.Args[4], os.Args[5])
 	default:
